@@ -1,6 +1,6 @@
 (* C42 — property theorems only.  Each is closed by `exact <lemma>` and followed by Print Assumptions. *)
 From Coq Require Import List NArith Bool Arith.
-From Verif.C42 Require Import Model Spec Proofs ProofsApply ProofsFinal ProofsIds ProofsSpec ProofsPin ProofsMaglev ProofsSched Witness.
+From Verif.C42 Require Import Model Spec Proofs ProofsApply ProofsFinal ProofsIds ProofsSpec ProofsPin ProofsMaglev ProofsSched ProofsOracle Witness.
 Import ListNotations.
 Open Scope N_scope.
 
@@ -134,8 +134,8 @@ Print Assumptions c42_requested_frontend_served.
      traffic policy requires;
    - there is no other frontend;
    - every backend entry is referred to by a frontend (id and ordinal below its count).
-   Not proved: that the boolean oracle final_exactb (used on the implementation's maps) is equivalent to this Prop
-   form; the oracle additionally demands nothing about ExternalIP / per-remote-node frontends' local-only flags. *)
+   The boolean oracle final_exactb used on the implementation's maps is tied to this statement by
+   c42_final_exactb_sound / c42_final_exactb_complete / c42_model_meets_spec below. *)
 Theorem c42_final_exact : forall cfg ops d0 states sy d st v fF fB tr sy' d',
   c_reset cfg = true -> consistent (fst d0) (snd d0) ->
   run_history cfg new_syncer d0 ops = Some (states, sy, d) ->
@@ -243,3 +243,50 @@ Print Assumptions c42_schedule_exists.
 Theorem c42_visit_ok_necessary : forall st v prev next r, visit_all prev next st v = Some r -> visit_ok st v = true.
 Proof. exact visit_ok_necessary. Qed.
 Print Assumptions c42_visit_ok_necessary.
+
+(* THE BOOLEAN ORACLES (evaluated on the implementation's recorded writes and maps) AND THE PROP-LEVEL SPECIFICATION.
+   (a) replay_ok / replay3_ok true  =>  consistent (and mg_consistent) after EACH recorded single write. *)
+Theorem c42_replay_ok_sound : forall ws d, replay_ok d ws = true ->
+  Forall (fun s => consistent (fst s) (snd s)) (states_after d ws).
+Proof. exact replay_ok_sound. Qed.
+Print Assumptions c42_replay_ok_sound.
+
+Theorem c42_replay3_ok_sound : forall mgcheck lut xs d, replay3_ok mgcheck lut d xs = true ->
+  Forall (fun s => consistent (fst (fst s)) (snd (fst s))
+                   /\ (mgcheck = true -> mg_consistent lut (fst (fst s)) (snd s))) (states3_after d xs).
+Proof. exact replay3_ok_sound. Qed.
+Print Assumptions c42_replay3_ok_sound.
+
+(* (b) final_exactb true  =>  final_exactP: every requested frontend present and exact (its backends in ordinal order
+   are a list `addrs` that is a permutation of the ready endpoints it must list, whose first `local` members are a
+   permutation of the local ones; affinity; local-only flags), no other frontend, no unreferenced backend; and both
+   maps free of duplicate keys.  (c) Conversely final_exactP implies final_exactb on maps without duplicate keys when
+   no service has more than COUNT_LIMIT endpoints. *)
+Theorem c42_final_exactb_sound : forall npips st fe be,
+  final_exactb npips st fe be = true -> final_exactP npips st fe be /\ ukeys fe /\ ukeys be.
+Proof. exact final_exactb_sound. Qed.
+Print Assumptions c42_final_exactb_sound.
+
+Theorem c42_final_exactb_complete : forall npips st fe be,
+  st_bounded st -> ukeys fe -> ukeys be -> final_exactP npips st fe be -> final_exactb npips st fe be = true.
+Proof. exact final_exactb_complete. Qed.
+Print Assumptions c42_final_exactb_complete.
+
+(* (d) THE MODEL MEETS THE SPEC: the oracles accept every run of the model.  For every history (c_reset = true) from a
+   good dataplane (e.g. empty: dp_good_empty) with at most COUNT_LIMIT endpoints per service, every Apply's schedule is
+   accepted by replay_ok, and a completed Apply of a well-formed state is accepted by final_exactb. *)
+Theorem c42_model_meets_spec : forall cfg ops d0 states sy d st v fF fB tr sy' d' err,
+  c_reset cfg = true -> dp_good d0 -> ops_bounded ops -> st_bounded st ->
+  run_history cfg new_syncer d0 ops = Some (states, sy, d) ->
+  exec_apply cfg sy d st v fF fB tr = Some (sy', d', err) ->
+  replay_ok d tr = true
+  /\ (err = false -> state_wf (c_npips cfg) st = true -> final_exactb (c_npips cfg) st (fst d') (snd d') = true).
+Proof. exact model_meets_spec. Qed.
+Print Assumptions c42_model_meets_spec.
+
+(* the every-write half holds for any Syncer state and also for the pinned code (c_reset = false) *)
+Theorem c42_model_meets_replay : forall cfg sy d st v fF fB tr sy' d' err,
+  dp_good d -> st_bounded st -> exec_apply cfg sy d st v fF fB tr = Some (sy', d', err) ->
+  replay_ok d tr = true /\ dp_good d'.
+Proof. exact model_meets_replay. Qed.
+Print Assumptions c42_model_meets_replay.
